@@ -155,6 +155,9 @@ def run(ctx, crate):
     # ---- R-DRAW-COMMIT-ON-SUCCESS (shared with C01) ----------------------------------------------
     rule_commit_on_success(ctx, crate)
     rule_io_no_retry(ctx, crate)
+    # "later calls on the same bar keep working": an I/O failure never ends the steady-tick thread
+    from .c08 import rule_ticker_exit_conditions
+    rule_ticker_exit_conditions(ctx, crate)
 
     # ---- R-IO-REPORTED -----------------------------------------------------------------------
     rule = "R-IO-REPORTED"
